@@ -66,6 +66,7 @@ def build():
             rc, o = sh(["/venv/bin/python", g, os.path.join(TH, out)], 120, env=env)
             if rc != 0:
                 res["translator_errors"].append("%s: %s" % (gen, o.strip()[-400:]))
+                res.setdefault("translator_outputs", []).append("theories/" + out)
         if not os.path.exists(os.path.join(COQ, "Makefile")):
             sh("coq_makefile -f _CoqProject -o Makefile", 60, cwd=COQ)
         rc, o = sh("timeout 1500 make -k -j%d 2>&1 | tail -60" % min(16, os.cpu_count() or 4), 1600, cwd=COQ)
@@ -220,8 +221,10 @@ def main(argv):
         cone(pf, files)
     obligations, names = count_obligations(files)
     proof_problems = []
-    if b["translator_errors"]:
-        proof_problems += ["translator: " + e for e in b["translator_errors"]]
+    # a translator that no longer accepts the source counts against the properties whose theorems depend on its output
+    for e, outf in zip(b["translator_errors"], b.get("translator_outputs", [])):
+        if outf in files or not files:
+            proof_problems.append("translator: " + e)
     broken = [f for f in b["failed_files"] if f in files or f == "ocaml/driver"]
     if broken:
         proof_problems.append("does not compile: " + ", ".join(broken))
